@@ -35,13 +35,24 @@ def run_rules(P, m, vals, k, lam):
         vp = persist("vals", to_np(vals), ValuationProfile.of)
         r = persist_rule(("sw", "accept", True), lambda: SocialWelfare(tie_breaker="accept", zero_indexed=True))
         out["util"] = {"score": [fr(Fraction(float(x))) for x in r.score(vp)], "winners": [int(x) for x in np.atleast_1d(r.scf(vp))]}
+        # the values are asked through the pre-populated elicitor or, for every other election, through a ONE-indexed callback elicitor
+        # (the rules always hand zero-based indices to the elicitor, which shifts them by its own convention)
+        import hashlib
+        from socialchoicekit.elicitation_utils import LambdaElicitor
+        one_indexed = int(hashlib.sha256(repr(P).encode()).hexdigest()[:2], 16) % 2 == 0
+        varr = to_np(vals)
+
+        def mk_el():
+            if one_indexed:
+                return LambdaElicitor(lambda a_, j_: float(varr[int(a_) - 1, int(j_) - 1]), zero_indexed=False)
+            return ValuationProfileElicitor(vp)
         r = persist_rule(("karv", k, "accept", True), lambda: KARV(k=k, tie_breaker="accept", zero_indexed=True))
-        sc = r.score(prof, ValuationProfileElicitor(vp))
-        w = r.scf(prof, ValuationProfileElicitor(vp))
+        sc = r.score(prof, mk_el())
+        w = r.scf(prof, mk_el())
         out["karv"] = {"score": [fr(Fraction(float(x))) for x in sc], "winners": [int(x) for x in np.atleast_1d(w)]}
         r = persist_rule(("prv", lam, "accept", True), lambda: LambdaPRV(lambda_=lam, tie_breaker="accept", zero_indexed=True))
-        sc = r.score(prof, ValuationProfileElicitor(vp))
-        w = r.scf(prof, ValuationProfileElicitor(vp))
+        sc = r.score(prof, mk_el())
+        w = r.scf(prof, mk_el())
         out["prv"] = {"score": [fr(Fraction(float(x))) for x in sc], "winners": [int(x) for x in np.atleast_1d(w)]}
     return out
 
